@@ -195,3 +195,41 @@ fn c09_transpose() {
     assert!(same_bits4(&tt.0, &a.0));
     kani::cover!(a.0[0][3] == 5.0, "generic");
 }
+
+/// A3b: inverse of sheared matrices.  M = (triangular: diagonal +-2^k, small-integer
+/// shear entries above or below the diagonal) with an integer translation column:
+/// elimination and back-substitution both have work to do, everything stays
+/// exact, and M^-1 o M == I == M o M^-1 exactly.
+fn inverse_shear(upper: bool) {
+    let ks: [i8; 3] = kani::any();
+    let negs: [bool; 3] = kani::any();
+    let sh: [i8; 3] = kani::any();
+    let ts: [i8; 3] = kani::any();
+    kani::assume(ks.iter().all(|k| *k >= -1 && *k <= 1) && sh.iter().all(|v| *v >= -2 && *v <= 2) && ts.iter().all(|t| *t >= -2 && *t <= 2));
+    let mut m = [[0.0f32; 4]; 4];
+    for i in 0..3 {
+        let v = [0.5f32, 1.0, 2.0][(ks[i] + 1) as usize];
+        m[i][i] = if negs[i] { -v } else { v };
+        m[i][3] = ts[i] as f32;
+    }
+    m[3][3] = 1.0;
+    if upper {
+        m[0][1] = sh[0] as f32; m[0][2] = sh[1] as f32; m[1][2] = sh[2] as f32;
+    } else {
+        m[1][0] = sh[0] as f32; m[2][0] = sh[1] as f32; m[2][1] = sh[2] as f32;
+    }
+    let mm: M4 = Matrix::new(m);
+    let inv = mm.inverse();
+    let id = inv.compose(&mm);
+    let id2 = mm.compose(&inv);
+    for i in 0..4 {
+        for j in 0..4 {
+            let e = if i == j { 1.0 } else { 0.0 };
+            assert!(id.0[i][j] == e);
+            assert!(id2.0[i][j] == e);
+        }
+    }
+    kani::cover!(sh[0] != 0 && sh[2] != 0 && ts[1] != 0, "two shears and a translation");
+}
+#[kani::proof] #[kani::unwind(6)] fn c09_inverse_shear_upper() { inverse_shear(true); }
+#[kani::proof] #[kani::unwind(6)] fn c09_inverse_shear_lower() { inverse_shear(false); }
